@@ -40,6 +40,36 @@ func nodeFacts(x *X) error {
 	sbCalls := x.Calls(sb)
 	iUpd, iDesc := CallIndex(sbCalls, "idKeeper.update"), CallIndex(sbCalls, "NewBundleDescriptorFromBundle")
 	x.Bool("seqAssignedFirst", iUpd >= 0 && iDesc >= 0 && iUpd < iDesc)
+	// b43260e: does SendBundle skip the numbers of bundles that are still stored (loop between the first
+	// update and the creation of the descriptor)?
+	sbSk := x.Skeleton(sb)
+	x.StrList("sendBundleSkeleton", sbSk)
+	skips := false
+	loop := []string{"for", "  if _, err := c.store.QueryId(bndl.ID().Scrub()); err != nil", "    break", "  c.idKeeper.update(bndl)"}
+	for i := 0; i+len(loop) <= len(sbSk); i++ {
+		ok := true
+		for j, l := range loop {
+			if sbSk[i+j] != l {
+				ok = false
+				break
+			}
+		}
+		if ok {
+			before, after := false, false
+			for _, l := range sbSk[:i] {
+				if l == "c.idKeeper.update(bndl)" {
+					before = true
+				}
+			}
+			for _, l := range sbSk[i+len(loop):] {
+				if strings.Contains(l, "NewBundleDescriptorFromBundle(") {
+					after = true
+				}
+			}
+			skips = before && after
+		}
+	}
+	x.Bool("sendBundleSkipsStored", skips)
 	tr, err := x.Func(routingDir, "Core", "transmit")
 	if err != nil {
 		return err
